@@ -21,7 +21,7 @@
 
    The carrier M of a slot's contents is a parameter (instances: Model.MetricMap.mmap with merge; a
    bag of datapoint ids with ++).  Ghost state, not in the Go code: every Take numbers its batch; a
-   slot carries the numbers of the batches merged into it; [taken]/[puts] remember the batch and how
+   slot carries the numbers of the batches merged into it; [taken]/[puts]/[pute] remember the batch and how
    many DrainEmits / DrainStarts had happened at its Take / Put.
 
    Not modelled: DrainWithContext's ctx.Done arm (Flush uses context.Background()); two concurrent
@@ -52,11 +52,12 @@ Section Consolidator.
     started : nat;                     (* ghost: DrainStarts so far *)
     next_id : nat;                     (* ghost *)
     taken : list (nat * (M * nat));    (* ghost: batch id |-> (batch, DrainEmits before its Take) *)
-    puts : list (nat * nat)            (* ghost: batch id |-> DrainStarts before its Put *)
+    puts : list (nat * nat);           (* ghost: batch id |-> DrainStarts before its Put *)
+    pute : list (nat * nat)            (* ghost: batch id |-> DrainEmits before its Put *)
   }.
 
   Definition init : state :=
-    St (repeat (Slot mempty []) k) [] Idle [] 0 0 [] [].
+    St (repeat (Slot mempty []) k) [] Idle [] 0 0 [] [] [].
 
   Inductive label :=
   | Take (d : nat) (b : M) | Put (d : nat)
@@ -81,7 +82,7 @@ Section Consolidator.
         match lookup d (held s), chan s with
         | None, sl :: r =>
             Some (St r ((d, Hold sl (next_id s) b) :: held s) (fl s) (flushes s) (started s)
-                     (S (next_id s)) ((next_id s, (b, length (flushes s))) :: taken s) (puts s))
+                     (S (next_id s)) ((next_id s, (b, length (flushes s))) :: taken s) (puts s) (pute s))
         | _, _ => None
         end
     | Put d =>
@@ -90,20 +91,20 @@ Section Consolidator.
             if length (chan s) <? k then
               Some (St (chan s ++ [Slot (mmerge (s_map (h_slot h)) (h_batch h)) (h_id h :: s_ids (h_slot h))])
                        (remove_key d (held s)) (fl s) (flushes s) (started s) (next_id s) (taken s)
-                       ((h_id h, started s) :: puts s))
+                       ((h_id h, started s) :: puts s) ((h_id h, length (flushes s)) :: pute s))
             else None
         | None => None
         end
     | DrainStart =>
         match fl s with
-        | Idle => Some (St (chan s) (held s) (Draining []) (flushes s) (S (started s)) (next_id s) (taken s) (puts s))
+        | Idle => Some (St (chan s) (held s) (Draining []) (flushes s) (S (started s)) (next_id s) (taken s) (puts s) (pute s))
         | _ => None
         end
     | DrainTake =>
         match fl s, chan s with
         | Draining got, sl :: r =>
             if length got <? k
-            then Some (St r (held s) (Draining (got ++ [sl])) (flushes s) (started s) (next_id s) (taken s) (puts s))
+            then Some (St r (held s) (Draining (got ++ [sl])) (flushes s) (started s) (next_id s) (taken s) (puts s) (pute s))
             else None
         | _, _ => None
         end
@@ -111,7 +112,7 @@ Section Consolidator.
         match fl s with
         | Draining got =>
             if length got =? k
-            then Some (St (chan s) (held s) (after_fill k) (flushes s ++ [got]) (started s) (next_id s) (taken s) (puts s))
+            then Some (St (chan s) (held s) (after_fill k) (flushes s ++ [got]) (started s) (next_id s) (taken s) (puts s) (pute s))
             else None
         | _ => None
         end
@@ -119,7 +120,7 @@ Section Consolidator.
         match fl s with
         | Filling (S n) =>
             if length (chan s) <? k
-            then Some (St (chan s ++ [Slot mempty []]) (held s) (after_fill n) (flushes s) (started s) (next_id s) (taken s) (puts s))
+            then Some (St (chan s ++ [Slot mempty []]) (held s) (after_fill n) (flushes s) (started s) (next_id s) (taken s) (puts s) (pute s))
             else None
         | _ => None
         end
@@ -143,6 +144,7 @@ Section Consolidator.
   Definition pending_ids (s : state) : list nat := map (fun dh => h_id (snd dh)) (held s).
   (* ghost stamps of batch i *)
   Definition put_stamp (s : state) (i : nat) : option nat := lookup i (puts s).
+  Definition put_emitted (s : state) (i : nat) : option nat := lookup i (pute s).
   Definition take_stamp (s : state) (i : nat) : option nat :=
     match lookup i (taken s) with Some (_, t) => Some t | None => None end.
   Definition batch_of (s : state) (i : nat) : option M :=
